@@ -66,9 +66,18 @@ def focus_key(sel):
 
 
 class Sim:
-    def __init__(self, inside):
+    def __init__(self, inside, selective=False):
+        """selective: the "overlays" are probes (ptera.probe.Probe) on the raw functions, which
+        instrument only the variables their selectors name, instead of BaseOverlay handlers on
+        fully instrumented `tooled` copies."""
         self.inside = inside
-        self.tf = T.tooled_family()
+        self.selective = selective
+        if selective:
+            self.tf = dict(F.RAW)
+            self.fnstates = [HY.FnState(f) for f in F.RAW.values()]
+        else:
+            self.tf = T.tooled_family()
+            self.fnstates = []
         F.DISPATCH.update(self.tf)
         self.env = dict(self.tf)
         self.trace = M.Trace()
@@ -95,9 +104,18 @@ class Sim:
         from ptera.selector import select
 
         rec = {"sel": sel, "sink": [], "open_t": None, "close_t": None}
+        if self.selective:
+            from ptera.probe import Probe
+
+            p = Probe(G.canonical(sel), env=self.env)
+            p.subscribe(lambda d, rec=rec: rec["sink"].append(dict(d)))
+            rec["cm"] = p
+            rec["handlers"] = lambda p=p: list(p._ol.handlers)
+            return rec
         s = select(G.canonical(sel), env=self.env)
         rec["handler"] = Immediate(s, trigger=(lambda a, rec=rec: rec["sink"].append({k: c.value for k, c in a.items()})))
         rec["cm"] = BaseOverlay(rec["handler"])
+        rec["handlers"] = lambda rec=rec: [rec["handler"]]
         return rec
 
     def _enter(self, rec):
@@ -165,7 +183,8 @@ class Sim:
             self.flags.add("overlay-entered-by-generator-body")
         (node,) = self._renumber([node], idx)
         g = self.tf["ga"](copy.deepcopy(node))
-        self.gens.append({"node": node, "gen": g, "state": "new", "act": None, "start_t": None})
+        self.gens.append({"node": node, "gen": g, "state": "new", "act": None, "start_t": None,
+                          "create_t": self.trace.tick()})
 
     def _gen_segment(self, g, idx, seg):
         tr = self.trace
@@ -309,7 +328,10 @@ class Sim:
             for gi, g in enumerate(self.gens):
                 if g["start_t"] is None:
                     continue
-                covering = rec["open_t"] < g["start_t"] and rec["close_t"] is None
+                # (a probe swaps the function's code in place: which variant a generator object runs
+                # is decided when it is created, not when it is first advanced)
+                born = g["create_t"] if self.selective else g["start_t"]
+                covering = rec["open_t"] < born and rec["close_t"] is None
                 wg = [e for e in want if origin(e) == gi]
                 gg = [e for e in got if origin(e) == gi]
                 if covering and wg:
@@ -322,7 +344,7 @@ class Sim:
                         f"overlay #{oi} {G.canonical(rec['sel'])} spanning generator {gi}: expected {wg!r}, got {gg!r}",
                     )
         if not self.inside or not getattr(self, "in_fd", False):
-            want_ids = sorted(id(r["handler"]) for r in self.overlays if r["close_t"] is None)
+            want_ids = sorted(id(h) for r in self.overlays if r["close_t"] is None for h in r["handlers"]())
             pairs = HY.handlers_installed()
             have_ids = sorted(id(a) for _, a in pairs)
             if want_ids != have_ids:
@@ -338,6 +360,9 @@ class Sim:
             g["gen"] = None
         gc.collect()
         HY.force_global_clean()
+        for st_ in self.fnstates:
+            if st_.is_clean():
+                st_.force_clean()
         F.DISPATCH.update(F.RAW)
         F.DISPATCH.pop("cbov", None)
 
@@ -350,8 +375,8 @@ def _ids(children):
     return out
 
 
-def run_history(inside, ops):
-    sim = Sim(inside)
+def run_history(inside, ops, selective=False):
+    sim = Sim(inside, selective)
     try:
         if not inside:
             for op in ops:
@@ -403,7 +428,7 @@ def run_history(inside, ops):
 
 def replay(payload):
     try:
-        run_history(payload["inside"], payload["ops"])
+        run_history(payload["inside"], payload["ops"], payload.get("selective", False))
     except PropertyViolation as v:
         return [{"clause": v.clause, "detail": v.detail}]
     return []
@@ -435,7 +460,7 @@ def strategy(max_ops):
         lambda gs: [g for g, _ in gs] + [("next", i) for i, (_, k) in enumerate(gs) for _ in range(1 if k else 0)]
         + [("next", i) for i in range(len(gs))])
     gens_first = st.tuples(started, st.lists(ov, min_size=1, max_size=2), body).map(lambda t: t[0] + t[1] + t[2])
-    return st.tuples(st.booleans(), st.one_of(overlays_first, overlays_first, gens_first))
+    return st.tuples(st.booleans(), st.one_of(overlays_first, overlays_first, gens_first), st.booleans())
 
 
 def plan(tier, seed, scale):
@@ -458,11 +483,12 @@ def shard(cfg):
     rec = Recorder()
 
     def body(case):
-        inside, ops = case
-        sim = run_history(inside, ops)
+        inside, ops, selective = case
+        sim = run_history(inside, ops, selective)
         fl = set(sim.flags)
         nt = bool(fl & {"call-while-suspended", "non-lifo-finish", "gen-outlives-overlay"})
         fl.add("inside-fd" if inside else "top-level")
+        fl.add("probes-on-raw-functions" if selective else "overlays-on-tooled-copies")
         rec.case(h64(repr(case)), nt, fl, sample=lambda: {"inside_fd": inside, "ops": [_brief(o) for o in ops]})
         rec.evaluations += len(ops) - 1
 
@@ -470,8 +496,9 @@ def shard(cfg):
                             max_examples=cfg["examples"], case_cpu_s=30.0)
     res = rec.result()
     if v is not None:
-        inside, ops = v.case
-        res["violations"] = [violation_record(PROPERTY, v, {"inside": inside, "ops": [list(o) for o in ops]})]
+        inside, ops, selective = v.case
+        res["violations"] = [violation_record(PROPERTY, v, {"inside": inside, "ops": [list(o) for o in ops],
+                                                            "selective": selective})]
     if herr:
         res["harness_errors"] = [herr]
     return res
